@@ -255,6 +255,9 @@ package mcap
     ensures wfUnindexed(it)
 @*/
 
+/*@ spec infoInv(r) = r.info != nil ==> ghost(mark, r.info)
+@*/
+
 /*@ spec wfReader(r) = r != nil && wfLexer(r.l) && r.r != nil
 @*/
 
@@ -263,6 +266,7 @@ package mcap
     requires r != nil
     ensures r1 == nil ==> wfReader(r0)
     ensures [source-fault-is-an-error-and-never-eof] {C15} (faulted() && !old(faulted()) ==> r1 != nil && !isEOF(r1)) && (old(faulted()) ==> faulted())
+    ensures [cached-info-is-unfiltered] {C08 C02} r1 == nil ==> infoInv(r0)
 @*/
 
 /*@ func (*Reader).unindexedIterator
@@ -397,6 +401,10 @@ package mcap
     ensures r1 == nil ==> r0 != nil
     ensures [source-fault-is-an-error-and-never-eof] {C15} (faulted() && !old(faulted()) ==> r1 != nil && !isEOF(r1)) && (old(faulted()) ==> faulted())
     call parseSummarySection#1 assert [info-reads-the-summary-without-any-filter] {C08 C02} len(it.topics) == 0 && it.start == 0 && it.end == 0 && it.order == FileOrder
+    requires [cached-info-is-unfiltered] {C08 C02} infoInv(r)
+    call parseSummarySection#1 label P
+    ghostdef mark(r0) = at(P, len(it.topics) == 0 && it.start == 0 && it.end == 0) when r1 == nil && fresh(r0)
+    ensures [cached-info-is-unfiltered] {C08 C02} infoInv(r) && (r1 == nil ==> ghost(mark, r0))
 @*/
 /*@ func (*Reader).Messages
     safety C10
@@ -409,6 +417,9 @@ package mcap
     call unindexedIterator#1 assert [fallback-scan-only-in-file-order] {C02} options.Order == FileOrder
     call unindexedIterator#1 assert [fallback-scan-starts-where-the-reader-stood] {C02} pos(r.rs) == startPos
     call Seek#2 assert [fallback-scan-restarts-where-the-reader-stood] {C02} arg0 == startPos && arg1 == 0
+    requires [cached-info-is-unfiltered] {C08 C02} infoInv(r)
+    ensures [cached-info-is-unfiltered] {C08 C02} infoInv(r)
+    loop 1 invariant [cached-info-is-unfiltered] {C08 C02} infoInv(r)
 @*/
 
 /*@ func (*ErrUnexpectedToken).Error
